@@ -805,6 +805,21 @@ let run_cdy mo jo impl secs =
          | _ -> ()) lines)
   | _ -> ()
 
+(* ---- THR: concurrent readers (run-time side of C16); the expected outcome is that every thread's digest
+   equals the sequential digest for every class ---- *)
+let run_thr mo jo impl secs =
+  match secs with
+  | ("THR" :: id :: _) :: _ ->
+    pr mo "C %s\n" id;
+    List.iter (fun c -> pr mo "D %s ok\n" c)
+      ["PGMIndex"; "CompressedPGMIndex"; "BucketingPGMIndex"; "EliasFanoPGMIndex"; "MappedPGMIndex"; "MultidimensionalPGMIndex"; "DynamicPGMIndex"];
+    (match Hashtbl.find_opt impl id with
+     | None -> ()
+     | Some lines -> List.iter (function
+         | ["D"; c; r] -> judge jo "C16" id ("concurrent readers on " ^ c ^ ": a thread's answers differ from the sequential run") (r = "ok")
+         | _ -> ()) lines)
+  | _ -> ()
+
 let () =
   let mode = Sys.argv.(1) in
   let cases = Sys.argv.(2) and implf = Sys.argv.(3) and modelf = Sys.argv.(4) and judgef = Sys.argv.(5) in
@@ -820,6 +835,7 @@ let () =
     | "map" -> run_map mo jo impl secs
     | "mul" -> run_mul mo jo impl secs
     | "capi" -> run_cix mo jo impl secs; run_cdy mo jo impl secs
+    | "thr" -> run_thr mo jo impl secs
     | "all" -> run_idx mo jo impl secs; run_seg mo jo impl secs; run_pla mo jo impl secs; run_dyn mo jo impl secs; run_bkt mo jo impl secs; run_efi mo jo impl secs;
       run_map mo jo impl secs; run_mul mo jo impl secs; run_cix mo jo impl secs; run_cdy mo jo impl secs
     | _ -> failwith "unknown mode") (read_lines cases);
